@@ -20,7 +20,7 @@ def run_case_generic(case, oracle, menu=explore.default_menu, horizon=None,
     for rec in explore.explore(base, bound, menu=menu, horizon=horizon, timeout=timeout):
         stats["runs"] += 1
         stats["evals"] += len(rec.pcalls)
-        stats["deviated_runs"] += 1 if rec.ndev else 0
+        stats["deviated_runs"] += 1 if rec.case.get("dev") else 0
         for p in rec.pcalls:
             key = "evals_" + str(p["kind"])
             stats[key] = stats.get(key, 0) + 1
